@@ -7,114 +7,114 @@ func sortStrings(s []string) { sort.Strings(s) }
 // Property -> rules, with the clauses decided / not decided (DESIGN.md section 4).
 func init() {
 	Props["C01"] = &PropSpec{
-		Level: "other",
-		Rules: []string{"R05", "R08", "R06", "R07", "R03", "R04", "R01", "R18b", "R43", "R35"},
+		Level:       "other",
+		Rules:       []string{"R05", "R08", "R06", "R07", "R03", "R04", "R01", "R18b", "R43", "R35"},
 		Explanation: "Crossing-freedom is the snap-rounding theorem applied to this implementation; its premises are decided for all polygons, levels, flags and grids: (i) the hot-pixel set holds the pixel of every vertex of every ring before any edge is routed and only insertCoord writes it (R05, R08), (ii) every edge including each ring's closing edge is routed through the index, and routed points — never input points — are what is emitted (R06, R07), (iii) pixel ownership (left/bottom owned) is encoded consistently in all six places, lineIntersects applies each border rule under the facts it belongs to, and conversions are index-aligned (R03, R01); (iv) the routed lists of different levels never share storage (R18b).",
-		Decided: []string{"every vertex of every ring is indexed before snapping (R05)", "only insertCoord adds hot pixels, after the range check (R08)", "every segment incl. the closing one is routed once through the index (R06)", "no input coordinate can reach an output structure; output coordinates are stored pixel centres (R07)", "half-open ownership tables agree and the five border rules of the segment/pixel test are present (R03)", "integer/float conversions are index-aligned (R01)", "per-level values own their storage (R18b)"},
-		NotDecided: []string{"numeric correctness of lineIntersects / float intersection for every segment-pixel pair", "that spike removal and ring splitting never invent an edge (data dependent; DESIGN F5)", "interior of a segment passing exactly through an excluded pixel corner"},
+		Decided:     []string{"every vertex of every ring is indexed before snapping (R05)", "only insertCoord adds hot pixels, after the range check (R08)", "every segment incl. the closing one is routed once through the index (R06)", "no input coordinate can reach an output structure; output coordinates are stored pixel centres (R07)", "half-open ownership tables agree and the five border rules of the segment/pixel test are present (R03)", "integer/float conversions are index-aligned (R01)", "per-level values own their storage (R18b)"},
+		NotDecided:  []string{"numeric correctness of lineIntersects / float intersection for every segment-pixel pair", "that spike removal and ring splitting never invent an edge (data dependent; DESIGN F5)", "interior of a segment passing exactly through an excluded pixel corner"},
 	}
 	Props["C02"] = &PropSpec{
-		Level: "other",
-		Rules: []string{"R01", "R02", "R03", "R04", "R08", "R06", "R18b", "R43", "R35"},
+		Level:       "other",
+		Rules:       []string{"R01", "R02", "R03", "R04", "R08", "R06", "R18b", "R43", "R35"},
 		Explanation: "Structural necessary conditions of exact hot-pixel routing, for all segments and pixel sets: the integer intersection point is (x, y) (R01); every x/y pair of formulas in pixel addressing is mirror-symmetric with no cross-axis operand (R02); the six encodings of the half-open pixel agree, derived from Extent.Vertices/Edges (R03); the 2x2 decision table marks a quadrant certain only when it contains an endpoint inside the parent, uses the mutex only for the two quadrants adjacent to pt1 in the diagonal case, and lists quadrants in order of travel (R04); routed pixels come only from the stored set (R08); per-segment clean-up receives exactly the routed list (R06); per-level results own their storage (R18b).",
-		Decided: []string{"index alignment of SegmentIntersect (R01)", "axis symmetry of address/extent formulas (R02)", "agreement of the half-open tables (R03)", "shape of the quadrant decision table and its consumer loop (R04)", "routed output comes only from the hot-pixel set (R08)", "clean-up per segment and level (R06)"},
-		NotDecided: []string{"numeric correctness of the float intersection", "completeness of pruning by infinite quadrants", "exhaustive tie enumeration on a lattice (that is an execution technique)"},
+		Decided:     []string{"index alignment of SegmentIntersect (R01)", "axis symmetry of address/extent formulas (R02)", "agreement of the half-open tables (R03)", "shape of the quadrant decision table and its consumer loop (R04)", "routed output comes only from the hot-pixel set (R08)", "clean-up per segment and level (R06)"},
+		NotDecided:  []string{"numeric correctness of the float intersection", "completeness of pruning by infinite quadrants", "exhaustive tie enumeration on a lattice (that is an execution technique)"},
 	}
 	Props["C03"] = &PropSpec{
-		Level: "other",
-		Rules: []string{"R07", "R02", "R09", "R43", "R18b"},
+		Level:       "other",
+		Rules:       []string{"R07", "R02", "R09", "R43", "R18b"},
 		Explanation: "For all inputs: every output coordinate is ToGeomPoint of the intCentroid of a stored Quadrant; intCentroid/intExtent are written only from getQuadrantExtentAndCentroid, index-aligned (R07); its x and y formulas are mirror images (R02); both copies of the level arithmetic agree and use the root tile width and the constant 16 (R09); the pixel formulas have the defining shape of a regular grid anchored at the extent corner, as polynomial identities over the symbols of the code with integer quotients kept opaque (R43); per-level results own their storage (R18b).",
-		Decided: []string{"provenance of every output coordinate (R07)", "x/y symmetry of the pixel extent and centre formulas (R02)", "level = id + log2(tile width) + log2(16) in both places (R09)", "min = rootMin + idx*span; max - min = span; centre - min = quo(span,2) added once; span = 2^(deepest-level)*res; res = quo(rootSpan, 2^deepest); address = quo(p - min, res) (R43)"},
-		NotDecided: []string{"the effect of integer truncation (grids whose extent does not divide evenly)", "the bound by the reported deviation for such grids"},
+		Decided:     []string{"provenance of every output coordinate (R07)", "x/y symmetry of the pixel extent and centre formulas (R02)", "level = id + log2(tile width) + log2(16) in both places (R09)", "min = rootMin + idx*span; max - min = span; centre - min = quo(span,2) added once; span = 2^(deepest-level)*res; res = quo(rootSpan, 2^deepest); address = quo(p - min, res) (R43)"},
+		NotDecided:  []string{"the effect of integer truncation (grids whose extent does not divide evenly)", "the bound by the reported deviation for such grids"},
 	}
 	Props["C04"] = &PropSpec{
-		Level: "other",
-		Rules: []string{"R07", "R08", "R05", "R18b", "R43", "R46"},
+		Level:       "other",
+		Rules:       []string{"R07", "R08", "R05", "R18b", "R43", "R46"},
 		Explanation: "Clause 1 only (every output vertex is the pixel centre of some input vertex), for all inputs: outputs are centroids of stored quadrants (R07); quadrants are stored only by insertCoord, only for addresses computed from polygon vertices after the range check (R08); every vertex is inserted (R05); per-level lists never alias (R18b). One necessary condition of clause 3: the containment predicate used for hole matching counts boundary points as inside and examines every segment (R46).",
 		Decided:     []string{"clause 1: every output vertex is the pixel centre of an input vertex", "necessary condition of clause 3: ringContains answers outside only after all segments were examined (R46)"},
 		NotDecided:  []string{"clause 2: half-pixel Chebyshev distance of every edge point", "clause 3: coverage equivalence beyond one pixel; holes stay holes, parts stay parts"},
 	}
 	Props["C05"] = &PropSpec{
-		Level: "other",
-		Rules: []string{"R11", "R12", "R13", "R14", "R10", "R06"},
+		Level:       "other",
+		Rules:       []string{"R11", "R12", "R13", "R14", "R10", "R06"},
 		Explanation: "Policy clauses, for all polygons and the four flag combinations: a present tile matrix always has at least one polygon (R11); rings below three vertices are diverted before de-duplication and before splitting, emitted only under keep-points-and-lines, after the polygons, and a level is dropped only when the shell collapses; the closing vertex is removed before the size test (R12); winding normalisation precedes routing (R06 under C01) and the configured reversal is the last transformation and covers every ring (R13); each option is read exactly where it takes effect (R14); the orientation predicate is go-spatial's winding.Order.OfPoints, shared by normalisation and split classification (R13); every segment (zero-length ones too) is routed (R06); the repeated-vertex lookup does not go through a lossy int->float->int conversion (R10, the F4 defect class).",
-		Decided: []string{"absent-rather-than-empty (R11)", "ring-size guards and keep/drop policy (R12)", "reversal last and complete (R13)", "option reads (R14)", "no lossy round trip on the snapping path (R10)"},
-		NotDecided: []string{"that splitting yields simple rings with the right orientation for every input (depends on hit maps and float area signs)", "no two equal consecutive vertices"},
+		Decided:     []string{"absent-rather-than-empty (R11)", "ring-size guards and keep/drop policy (R12)", "reversal last and complete (R13)", "option reads (R14)", "no lossy round trip on the snapping path (R10)"},
+		NotDecided:  []string{"that splitting yields simple rings with the right orientation for every input (depends on hit maps and float area signs)", "no two equal consecutive vertices"},
 	}
 	Props["C07"] = &PropSpec{
-		Level: "other",
-		Rules: []string{"R15", "R15p", "R16", "R13", "R14", "R06"},
+		Level:       "other",
+		Rules:       []string{"R15", "R15p", "R16", "R13", "R14", "R06"},
 		Explanation: "Determinism clause, complete: a race-free single-goroutine Go computation is deterministic except for map iteration order, select, scheduling, time, randomness and address-dependent behaviour. R16 shows the snapping call graph (module and dependencies) has none of the latter and writes no package-level state; R15 enumerates every map range and unordered producer (maps.Keys) on that call graph and proves each commutative: per-key stores/appends/deletes with an injective key, set insertion, fresh memory, callee write effects addressed by the iteration key (bottom-up effect summaries), append-only collections whose every later use is order-insensitive (len, max, set conversion, sort before use, commutative loops, followed interprocedurally). R15p does the same below processing.ProcessFeatures. Clause 3 (reverse flag changes direction only): R13 + R14.",
-		Decided: []string{"clause 1: identical output in every process, over all map iteration orders (R15, R16)", "clause 3: the reverse flag only reverses, last (R13, R14)", "necessary condition of clause 2: every ring is normalised before use (R06 under C01)"},
-		NotDecided: []string{"clause 2 sufficiency: that winding.Order classifies every valid ring correctly (trusted library)", "float arithmetic being deterministic across platforms"},
+		Decided:     []string{"clause 1: identical output in every process, over all map iteration orders (R15, R16)", "clause 3: the reverse flag only reverses, last (R13, R14)", "necessary condition of clause 2: every ring is normalised before use (R06 under C01)"},
+		NotDecided:  []string{"clause 2 sufficiency: that winding.Order classifies every valid ring correctly (trusted library)", "float arithmetic being deterministic across platforms"},
 		Assumptions: []string{"callee read effects are not tracked: a callee reading per-level state of another level is caught by R18, not R15", "a sort with a custom comparator is accepted as fixing the order only if the comparator reads nothing but the elements (no map lookups, no calls); it is then assumed to be a strict total order on distinct elements", "standard library functions are classified by a table (pure / output only / writes first argument / commutative sync); anything else inside a map-range loop fails"},
 	}
 	Props["C08"] = &PropSpec{
-		Level: "other",
-		Rules: []string{"R20", "R18", "R18b", "R19", "R09"},
+		Level:       "other",
+		Rules:       []string{"R20", "R18", "R18b", "R19", "R09"},
 		Explanation: "For all polygons and id subsets: result keys are exactly requested ids (R20); every access to level-indexed state (maps keyed by Level in snap and pointindex, 40+ sites) uses the level currently being processed, the root level, or the counter of the descent over all levels (R18, with one hop through parameters); the requested set only selects what is recorded and never steers the descent, and a level is dropped only because of its own ring result (R19); values stored per level never share backing storage (R18b); the level arithmetic is shared (R09).",
-		Decided: []string{"result keyed by requested ids only (R20)", "no cross-level access to per-level state (R18)", "no shared storage between levels (R18b)", "requested set does not influence the descent (R19)"},
-		NotDecided: []string{"that coarser pixel addresses derived from the deepest address are independent of the deepest level — true exactly when the extent divides evenly, the property's own precondition (arithmetic)"},
+		Decided:     []string{"result keyed by requested ids only (R20)", "no cross-level access to per-level state (R18)", "no shared storage between levels (R18b)", "requested set does not influence the descent (R19)"},
+		NotDecided:  []string{"that coarser pixel addresses derived from the deepest address are independent of the deepest level — true exactly when the extent divides evenly, the property's own precondition (arithmetic)"},
 	}
 	Props["C09"] = &PropSpec{
-		Level: "other",
-		Rules: []string{"R21", "R22", "R05", "R08", "R02", "R03", "R14"},
+		Level:       "other",
+		Rules:       []string{"R21", "R22", "R05", "R08", "R02", "R03", "R14"},
 		Explanation: "For all polygons, flags and grids: every quotient feeding the outside-grid range check has a numerator proven non-negative by an earlier rejection (R21; Go's / truncates toward zero, the F2 defect class); every vertex of every ring passes the range check before anything is stored or snapped (R05, R08); both axes and all four sides are treated alike (R02, R03); a failed check propagates unchanged and ends in panic or a fresh empty map with snapping unreachable, the quiet exit only for an OutsideGridError under IgnoreOutsideGrid, and the rejection error has exactly the dynamic type errors.As is asked for (R22, R14).",
-		Decided: []string{"sound rejection on the left/bottom side (R21)", "range check before store, on all four sides, both axes (R08, R03, R02)", "rejection is final: panic or empty result (R22)", "the right option is consulted (R14)"},
-		NotDecided: []string{"offsets below the 1e-10 integer resolution", "exact position of the right/top border on grids whose extent does not divide evenly"},
+		Decided:     []string{"sound rejection on the left/bottom side (R21)", "range check before store, on all four sides, both axes (R08, R03, R02)", "rejection is final: panic or empty result (R22)", "the right option is consulted (R14)"},
+		NotDecided:  []string{"offsets below the 1e-10 integer resolution", "exact position of the right/top border on grids whose extent does not divide evenly"},
 	}
 	Props["C10"] = &PropSpec{
-		Level: "other",
-		Rules: []string{"R28", "R29", "R30", "R11", "R23", "R24", "R27", "R15p"},
+		Level:       "other",
+		Rules:       []string{"R28", "R29", "R30", "R11", "R23", "R24", "R27", "R15p"},
 		Explanation: "For all feature streams, target sets and schedules: dispatch by geometry type with a default arm forwarding the untouched geometry once per target; exactly one delivery per (feature, tile matrix present in the result) carrying the received feature, that key and the geometry of the same key; the router sends exactly once per received feature on the channel selected by its TileMatrixID (R28); the wrapper is transparent for columns and id (R29); multipolygon parts are merged per tile matrix and the merged result has no entry without geometry (R30); absent <=> no geometry (R11); the per-tile-matrix wrapper is written only at construction and the constructor returns a fresh value (R27). Per-target FIFO follows from single sender / single consumer per channel (R23, R24); 'only the geometry computed for that target' needs no in-place write to the shared column slice (R27); map order cannot change deliveries (R15p).",
-		Decided: []string{"one delivery per feature and tile matrix, none for absent ones (R28, R11)", "attribute pass-through (R29)", "multipolygon merge (R30)", "order per target (R23, R24)", "no cross-target contamination through shared column storage (R27)"},
-		NotDecided: []string{"correctness of the snapped geometry itself (C01-C09)", "nothing dynamic is sampled"},
+		Decided:     []string{"one delivery per feature and tile matrix, none for absent ones (R28, R11)", "attribute pass-through (R29)", "multipolygon merge (R30)", "order per target (R23, R24)", "no cross-target contamination through shared column storage (R27)"},
+		NotDecided:  []string{"correctness of the snapped geometry itself (C01-C09)", "nothing dynamic is sampled"},
 	}
 	Props["C11"] = &PropSpec{
-		Level: "other",
-		Rules: []string{"R23", "R24", "R25", "R26", "R27"},
+		Level:       "other",
+		Rules:       []string{"R23", "R24", "R25", "R26", "R27"},
 		Explanation: "Structural proof of the premises of termination and join, for all interleavings: every pipeline channel has exactly one sending function, which closes it exactly once, outside loops, on every normal path after its sends, with no send reachable after the close; every module Source closes its output (R23). Every consumer (snapper, router, every module Target) leaves its receive loop only when the channel is closed (R24). wg.Add(1) dominates each go statement in the same iteration, Done is deferred first, Wait is on every path after the go and before every return; the router waits after closing all target channels; ProcessFeatures joins the router (R25). All four go statements are joined or tail-terminating (R26). No captured variable is reassigned after the go, shared feature storage is not written in place, and per-tile-matrix wrappers are immutable after construction (R27). Stage graph reader -> snapper -> router -> writers is acyclic, every producer closes, every consumer drains: every stage terminates on finite input under every schedule and ProcessFeatures returns only after every Target.WriteFeatures returned.",
-		Decided: []string{"channel life cycle (R23)", "drain until close (R24)", "wait-group pairing and join points (R25)", "goroutine inventory (R26)", "no unsynchronised writes to captured or shared data (R27)"},
-		NotDecided: []string{"races inside third-party code (database/sql is documented goroutine-safe)", "the Go memory model itself", "reader and snapper may still be logging for an instant after ProcessFeatures returns (not a leak)"},
+		Decided:     []string{"channel life cycle (R23)", "drain until close (R24)", "wait-group pairing and join points (R25)", "goroutine inventory (R26)", "no unsynchronised writes to captured or shared data (R27)"},
+		NotDecided:  []string{"races inside third-party code (database/sql is documented goroutine-safe)", "the Go memory model itself", "reader and snapper may still be logging for an instant after ProcessFeatures returns (not a leak)"},
 	}
 	Props["C12"] = &PropSpec{
-		Level: "other",
-		Rules: []string{"R31", "R32", "R33", "R47"},
+		Level:       "other",
+		Rules:       []string{"R31", "R32", "R33", "R47"},
 		Explanation: "Row-completeness clauses for all (count, positive page size): typestate of the page buffer over all paths — every appended feature is flushed exactly once before WriteFeatures returns (R31); every flushed feature is inserted exactly once through a statement prepared on the page's transaction, which is committed on every normal path, with the extent accumulated over every feature, only through the two known idioms, and merged after commit (R32); attribute/geometry column order agrees between selectSQL, insertSQL, createSQL, ReadFeatures and writeFeatures (R33).",
-		Decided: []string{"one flush per buffered feature incl. the final partial page (R31)", "one INSERT per flushed feature in a committed transaction; extent over all rows (R32)", "column order agreement (R33)", "schema (name, columns, geometry column/type, srs) copied field by field for every table (R47)"},
-		NotDecided: []string{"what SQLite/SpatiaLite do with the statements (rtree triggers, gpkg_contents arithmetic, schema copy)", "dropped Commit error (only matters under I/O faults, outside the quantifier)"},
+		Decided:     []string{"one flush per buffered feature incl. the final partial page (R31)", "one INSERT per flushed feature in a committed transaction; extent over all rows (R32)", "column order agreement (R33)", "schema (name, columns, geometry column/type, srs) copied field by field for every table (R47)"},
+		NotDecided:  []string{"what SQLite/SpatiaLite do with the statements (rtree triggers, gpkg_contents arithmetic, schema copy)", "dropped Commit error (only matters under I/O faults, outside the quantifier)"},
 	}
 	Props["C13"] = &PropSpec{
-		Level: "other",
-		Rules: []string{"R34", "R14", "R35", "R36", "R37", "R45", "R28", "R30", "R11"},
+		Level:       "other",
+		Rules:       []string{"R34", "R14", "R35", "R36", "R37", "R45", "R28", "R30", "R11"},
 		Explanation: "Plumbing clauses for all flag combinations: every flag is declared once, read with its declared kind (urfave/cli returns the zero value silently otherwise), and reaches the option it names; the page size reaches TargetGeopackage.pagesize; overwrite guards os.Remove (R34, R14); same-typed arguments are not swapped (R35); validation gates all work; one target per validated id, stored under and named from that id, removed first under overwrite; tables are processed with source and every target switched to the table before the run and untouched afterwards (R36); the quadtree gate comes first inside validation and every validation error is returned (R37); the target name is the given name with _<id> inserted before exactly its extension (R45); the delivery clauses of the pipeline (R28, R30, R11). Per-table content otherwise follows from C10-C12.",
-		Decided: []string{"flag table agreement (R34)", "option reads (R14)", "argument order (R35)", "order of operations in the action and in initGPKGTarget (R36)", "validation order (R37)"},
-		NotDecided: []string{"path.Split/Ext semantics of the standard library for unusual paths", "SQLite behaviour"},
+		Decided:     []string{"flag table agreement (R34)", "option reads (R14)", "argument order (R35)", "order of operations in the action and in initGPKGTarget (R36)", "validation order (R37)"},
+		NotDecided:  []string{"path.Split/Ext semantics of the standard library for unusual paths", "SQLite behaviour"},
 	}
 	Props["C14"] = &PropSpec{
-		Level: "other",
-		Rules: []string{"R37", "R38", "R09"},
+		Level:       "other",
+		Rules:       []string{"R37", "R38", "R09"},
 		Explanation: "Validation cannot reach shape-assuming code (FromTileMatrixSet, MatrixSize, MatrixBoundingBox) before IsQuadTree accepted the set, IsQuadTree's error is returned, every explicit panic reachable from validation is excluded by a check in IsQuadTree on the same field, all guards on VariableMatrixWidths use one emptiness predicate, and every error produced inside validation is returned (R37); IsQuadTree iterates the complete sorted id set without skips, updates the predecessor unconditionally, and enforces each of the ten quadtree conditions with the stated operands and operator, pairwise ones only under `previous != nil` (R38); accepted => the level arithmetic used by snapping is the one used by validation (R09).",
-		Decided: []string{"gate first, no panic behind it (R37)", "every condition enforced for every matrix incl. the last (R38)", "pixel-size relation shared by validation and snapping (R09)"},
-		NotDecided: []string{"the verdict on each of the 14 shipped documents (evaluating IsQuadTree on data)", "that the first id is 0 and matrix 0 is 1x1 (not tested by IsQuadTree; ids not starting at 0 are rejected later by MatrixBoundingBox(0))", "slices.Max panics on an empty id list (outside the quantifier)"},
+		Decided:     []string{"gate first, no panic behind it (R37)", "every condition enforced for every matrix incl. the last (R38)", "pixel-size relation shared by validation and snapping (R09)"},
+		NotDecided:  []string{"the verdict on each of the 14 shipped documents (evaluating IsQuadTree on data)", "that the first id is 0 and matrix 0 is 1x1 (not tested by IsQuadTree; ids not starting at 0 are rejected later by MatrixBoundingBox(0))", "slices.Max panics on an empty id list (outside the quantifier)"},
 	}
 	Props["C15"] = &PropSpec{
-		Level: "other",
-		Rules: []string{"R02", "R42", "R44", "R16t"},
+		Level:       "other",
+		Rules:       []string{"R02", "R42", "R44", "R16t"},
 		Explanation: "Pairing clauses for all tile matrix sets: width-flavoured operands only on the x side and height-flavoured only on the y side in FromNative, ToNative, MatrixSize, MatrixBoundingBox (R02); identical corner-of-origin case analysis (default falls through to TopLeft; BottomLeft) and sign convention in the three functions; one common ToXYPoint for the origin (R42); FromNative(ToNative(tile)) == tile per axis and corner convention, MatrixSize = tiles x tile size, the bounding box spans matrix-size tiles from the origin — polynomial identities over the code's symbols (R44); no package-level state, cache or sync below the addressing functions (R16t).",
 		Decided:     []string{"operand pairing (R02)", "corner-of-origin agreement (R42)", "ToNative and FromNative are mutually inverse as formulas; bounding box spans the matrix (R44)", "addressing is stateless (R16t)"},
 		NotDecided:  []string{"rounding (9 decimals) versus unrounded division at tile borders", "content of the EPSG axis table"},
 	}
 	Props["C16"] = &PropSpec{
-		Level: "other",
-		Rules: []string{"R39", "R40", "R15j"},
+		Level:       "other",
+		Rules:       []string{"R39", "R40", "R15j"},
 		Explanation: "For all documents: every hand-written codec reads exactly the keys it writes, json:\"-\" fields are exactly the re-added special keys, the three CRS variants have pairwise distinct required keys and no variant writes another's (R39: decode(encode(v)) cannot change variant or lose a special key). Decoding has no unchecked type assertion, no out-of-range submatch index, no missing-key fall-through, cannot return success without validate.Struct, has the positivity/required constraints on the named fields, parses ids with strconv and returns the error, decodes every array element into a fresh value, and no explicit panic is reachable from decoding in module code (R40); the encoder emits the tile matrices in sorted order independent of map iteration (R15j).",
-		Decided: []string{"reader/writer key agreement and CRS variant exclusivity (R39)", "decode totality and validation (R40)"},
-		NotDecided: []string{"marshmallow / validator / defaults internals", "float formatting stability of encoding/json", "validate tags on unexported fields are never evaluated ({\"crs\":{\"wkt\":{}}} is accepted)"},
+		Decided:     []string{"reader/writer key agreement and CRS variant exclusivity (R39)", "decode totality and validation (R40)"},
+		NotDecided:  []string{"marshmallow / validator / defaults internals", "float formatting stability of encoding/json", "validate tags on unexported fields are never evaluated ({\"crs\":{\"wkt\":{}}} is accepted)"},
 	}
 	Props["C17"] = &PropSpec{
-		Level: "proof",
-		Rules: []string{"R41"},
+		Level:       "proof",
+		Rules:       []string{"R41"},
 		Explanation: "Bit-provenance abstract interpretation (known-bits style, loops unrolled on constant counters) of the SSA of morton.ToZ and morton.FromZ with the masks/powersOfTwo tables read from the source: under x, y <= MaxUint32 every result bit of ToZ is a plain copy (z[2k] = x[k], z[2k+1] = y[k]) hence injective; FromZ returns x[k] = z[2k], y[k] = z[2k+1] with zero upper halves, so FromZ(ToZ(x, y)) = (x, y); ToZ(x,y)>>2 = ToZ(x>>1,y>>1) bit for bit; ok is exactly x <= MaxUint32 && y <= MaxUint32 (truth table over the two comparisons) and MustToZ panics iff !ok; all callers outside morton use the checked encoder; words are 64 bit. A complete argument over all 2^64 address pairs.",
 		Decided:     []string{"uniqueness (injectivity)", "decode inverts encode", "parent = key >> 2", "not-encodable reported, never aliased"},
 		NotDecided:  []string{},
